@@ -31,8 +31,40 @@ thread_local! {
     static MEM_STOP: std::cell::Cell<bool> = const { std::cell::Cell::new(false) };
 }
 
+/// wall-clock limit of one minimisation, across the processes it is handed to: unix seconds in
+/// SMTSIM_SHRINK_DEADLINE (set by the first process: start + 240 s). Past it every candidate
+/// counts as "does not fail", so the best trace so far is reported; it still replays exactly,
+/// it is just less small.
+pub fn shrink_deadline() -> u64 {
+    if let Some(d) = std::env::var("SMTSIM_SHRINK_DEADLINE").ok().and_then(|x| x.parse::<u64>().ok()) {
+        return d;
+    }
+    new_shrink_deadline()
+}
+
+/// start of a minimisation in the first process: now + 240 s, exported for the processes it is
+/// handed to
+pub fn new_shrink_deadline() -> u64 {
+    let now = std::time::SystemTime::now().duration_since(std::time::UNIX_EPOCH).map(|d| d.as_secs()).unwrap_or(0);
+    let d = now + 240;
+    std::env::set_var("SMTSIM_SHRINK_DEADLINE", d.to_string());
+    d
+}
+
+fn past_deadline(deadline: u64) -> bool {
+    std::time::SystemTime::now().duration_since(std::time::UNIX_EPOCH).map(|d| d.as_secs()).unwrap_or(0) > deadline
+}
+
+thread_local! {
+    static DEADLINE: std::cell::Cell<u64> = const { std::cell::Cell::new(u64::MAX) };
+}
+
 fn fails(tr: &Trace, props: u32, prop: Prop, rule: &str, budget: &mut usize) -> Option<Violation> {
     if *budget == 0 || MEM_STOP.with(|m| m.get()) {
+        return None;
+    }
+    if past_deadline(DEADLINE.with(|d| d.get())) {
+        *budget = 0;
         return None;
     }
     if resident_kb() > 2_500_000 {
@@ -50,6 +82,7 @@ fn fails(tr: &Trace, props: u32, prop: Prop, rule: &str, budget: &mut usize) -> 
 pub fn minimise(trace: &Trace, props: u32, v0: &Violation, max_candidates: usize) -> Shrunk {
     let mut budget = max_candidates;
     MEM_STOP.with(|m| m.set(false));
+    DEADLINE.with(|d| d.set(shrink_deadline()));
     let prop = v0.prop;
     let rule = v0.rule;
     let mut best = trace.clone();
